@@ -51,6 +51,13 @@ Section Resolver.
   Definition resolve_multiple (order : list rdid) := collect order.
 End Resolver.
 
+(* Resolver::attach_handler: command_map.insert(method, handler) - a later attachment for the same
+   method replaces the earlier one.  The table is the attachment history, newest first, read by
+   `lookup` from the front. *)
+Definition attach_handler (t : list (Z * Z)) (m h : Z) : list (Z * Z) := (m, h) :: t.
+Definition table_of (hist : list (Z * Z)) : list (Z * Z) :=
+  fold_left (fun t e => attach_handler t (fst e) (snd e)) hist [].
+
 (* CoreDocument::expand_did_jwk: one verification method #0 carrying the key encoded in the DID,
    referenced from assertionMethod, authentication, capabilityInvocation, capabilityDelegation *)
 Definition jwk_method_id (did : Z) : url := {| u_did := did; u_rest := 0; u_frag := Some 0 |}.
